@@ -38,9 +38,10 @@ type (
 		Args []Expr
 	}
 	EQuant struct {
-		Forall bool
-		Vars   []QVar
-		Body   Expr
+		Forall   bool
+		Vars     []QVar
+		Body     Expr
+		Triggers []Expr // explicit  {t1, t2}  after the variables: one multi-pattern
 	}
 	ELet struct {
 		Name string
@@ -200,6 +201,7 @@ func (p *sparser) expr() Expr {
 	if p.isId("forall") || p.isId("exists") {
 		fa := p.next().s == "forall"
 		var vars []QVar
+		var trig []Expr
 		for {
 			t := p.next()
 			if t.k != "id" {
@@ -208,13 +210,23 @@ func (p *sparser) expr() Expr {
 			qv := QVar{Name: t.s}
 			// optional type: tokens until , or ::
 			var ty []string
-			for !p.isOp(",") && !p.isOp("::") && p.peek().k != "eof" {
+			for !p.isOp(",") && !p.isOp("::") && !p.isOp("{") && p.peek().k != "eof" {
 				ty = append(ty, p.next().s)
 			}
 			qv.Type = strings.Join(ty, "")
 			vars = append(vars, qv)
 			if p.accept(",") {
 				continue
+			}
+			if p.accept("{") {
+				for {
+					trig = append(trig, p.iff())
+					if p.accept(",") {
+						continue
+					}
+					p.expect("}")
+					break
+				}
 			}
 			p.expect("::")
 			break
@@ -226,7 +238,7 @@ func (p *sparser) expr() Expr {
 			}
 		}
 		body := p.expr()
-		return &EQuant{Forall: fa, Vars: vars, Body: body}
+		return &EQuant{Forall: fa, Vars: vars, Body: body, Triggers: trig}
 	}
 	if p.isId("let") {
 		p.next()
